@@ -79,8 +79,8 @@ func checkC16(c *Ctx, r *Report) {
 		eachCall(f, func(call ssa.CallInstruction, n string) {
 			if strings.HasSuffix(n, "config.ConfigProp).OnChange") {
 				for _, a := range call.Common().Args {
-					if mc, ok := a.(*ssa.MakeClosure); ok {
-						roots = append(roots, mc.Fn.(*ssa.Function))
+					if fn := closureFn(a); fn != nil {
+						roots = append(roots, fn)
 					}
 				}
 			}
